@@ -330,6 +330,6 @@ func TestC19_ContractBytes(t *testing.T) {
 		r.Label("contract:token=" + tokenKind)
 		r.Label("contract:parts=" + parts)
 		r.LabelN("contract:emitted_bytes", len(b))
-		r.Case(tokenKind+"|"+parts+"|"+cl.key(), len(cl) > 0, desc)
+		r.Case(tokenKind+"|"+parts+"|"+cl.key(), len(cl) > 0, sampled("contract", 2, desc))
 	})
 }
